@@ -474,7 +474,14 @@ func run(in input) vh.Result {
 	ce, cs := coqSnapshot(es, ss)
 	var letters []string
 	for c := range seen {
-		letters = append(letters, string(c))
+		// the histogram class keeps the rarer branches only:
+		// F extra attempt finished before the live primary, G stale snapshot protected from expiry by a
+		// fresher in-flight attempt, L per-session limit rejection, O ttl in the former overflow range,
+		// P primary cancelled with promotion of the last extra, S swap-remove of a non-last extra,
+		// E expiry removed something, K rollback kept a committed/overlapped identity
+		if strings.ContainsRune("EFGKLOPS", c) {
+			letters = append(letters, string(c))
+		}
 	}
 	sort.Strings(letters)
 	class := fmt.Sprintf("x%d:%s", min(maxExtra, 3), strings.Join(letters, ""))
